@@ -91,6 +91,9 @@ func runC03(r *Run) {
 		{`lazyif(b, lazyif(b, tr(x), tr(y)), tr(3)) + 100`, true}, {`[lazyif(b, lazyif(b, tr(10), tr(20)), tr(30)), tr(7)]`, true}, {`lazyif(b, lazyif(b, x, y) + 1, 3) + 100`, true},
 		{`lazyif(b, lazyif(f, tr(x), tr(y)) * 2, tr(3)) - 50`, true}, {`both(both(trb(b), trb(b)), trb(f)) || trb(b)`, true}, {`if(both(b, both(b, trb(b))), tr(1), tr(2)) + tr(3)`, true},
 		{`lazyif(both(b, b), lazyif(both(b, f), 1, 2), 3) * 10 + lazyif(f, 1, lazyif(b, 5, 6))`, true}, {`[tr(1), tr(2)][tr(3) - 3]`, true}, {`[[1]][3][[2][7]]`, false},
+		{`[0, 0.0000000005]`, false}, {`(1.0000000001 - 1) * 1000000000000`, false}, {`["a": 0.5, "b": 0.5000000002]`, false}, {`string(2.0000000004) + "/" + string(2)`, false},
+		{`1 > 2 || (0 + 3e-10) * 1e10 > 1`, false}, {`if(x < 1, 2.5000000001, 2.5) * 4`, false}, {`max(0, 1e-300) * 1e300`, false}, {`[1, 1.0000000001, 1]`, false}, {`(x - x) + 1e-10 * 1e10 + 0`, false},
+		{`0.30000000000000004 - 0.3`, false}, {`[0.1 + 0.2, 0.3, 0.30000000000000004]`, false}, {`{a: 1, b: 1.0000000002}.b * 1e10`, false}, {`"a" + "a" + string(1) + string(1.0000000001)`, false},
 		{`1e-10 == 0`, false}, {`2 ^ 0.5`, false}, {`round(-2.5)`, false}, {`t0 - t1`, false}, {`t0 == strtotime("2020-01-02 03:04:05")`, false}, {`'2020-01-02 03:04:05' == t0`, false},
 	}
 	for _, c := range corpus {
@@ -120,53 +123,7 @@ func runC03(r *Run) {
 			}
 		}
 	}
-	// one compiled expression per back end invoked on a sequence of environments: every invocation must give what a
-	// fresh compilation gives on that environment, on every back end (thunk bodies, constant pools and VM state are
-	// shared by the invocations of one Callable)
-	{
-		alt := stdValues()
-		alt["x"], alt["y"], alt["b"], alt["f"], alt["s"] = val.Num(-4), val.Num(0.5), val.False, val.True, val.Str("zz")
-		seq := []map[string]*val.Val{stdValues(), alt, stdValues(), alt}
-		for _, src := range []string{`lazyif(b, x, y) + 1`, `lazyif(x > 0, s, e)`, `both(b, x > 0)`, `lazyif(b, tr(x), tr(y))`, `lazyif(f, 1, lazyif(b, x, y))`, `[lazyif(b, s, e), trs(s)]`,
-			`lazyif(b, lazyif(b, tr(x), tr(y)), tr(3)) + 100`, `if(b, x, y) + tr(x)`, `b && x > 0 || tr(y) > 0`, `x + y * 2`, `[x: s, y: e]`, `abs(y) + y`, `y - floor(y)`, `{p: x, q: s}.p + o.p`,
-			`ident(x) + inc(y)`, `pick([x], s)`, `get(mb, x) + len(xs)`} {
-			for bi, be := range backends {
-				tl := &traceLog{}
-				var cl yae.Callable
-				var cerr error
-				if pan, _ := protect(func() { cl, cerr = newExpr(be, tl, true).Compile(src, typeEnvOf(vars)) }); pan || cerr != nil {
-					continue
-				}
-				for k, vals := range seq {
-					var got outcome
-					tl.ev = nil
-					var v *val.Val
-					var err error
-					mark(fmt.Sprintf("invocation #%d of one Callable for %q on back end %s", k+1, src, be))
-					pan, msg := protect(func() { v, err = cl(valEnvOf(vals)) })
-					got.trace = tl.ev
-					switch {
-					case pan:
-						got.cls = classify(msg)
-					case err != nil:
-						got.cls = classify(err.Error())
-					default:
-						got.cls, got.v = "value", v
-					}
-					want := runOn(be, src, vars, vals, true)
-					r.Count("re-invocation cases")
-					if !obsEqual(got, want) {
-						r.Violate("reinvocation-differs-from-fresh-compilation", fmt.Sprintf("%q on %s, invocation #%d of one Callable", src, be, k+1), fmt.Sprintf("got %s, a fresh compilation gives %s", brief(got), brief(want)))
-					}
-					if bi == 0 || bi == 2 {
-						tag := map[string]string{"closure": "evalsrc", "vm-switch": "vmsrc"}[be]
-						hs := historyFor(true)
-						r.Case(L(A(tag), hs.Sx(), tenvSx(vars), venvSx(vars, vals), oraclesSx(src, vals), Runes(src)), got.Sx())
-					}
-				}
-			}
-		}
-	}
+	judgeReinvocations(r, vars)
 	// short-circuit forms with literal operands next to tracing and failing calls (peephole territory)
 	for _, l := range []string{`tr(1) > 0`, `trb(b)`, `m["zz"] > 0`, `boom(1) > 0`, `[trb(f)][0]`} {
 		for _, tpl := range []string{"%s && false", "%s && true", "%s || true", "%s || false", "false && %s", "true || %s", "if(%s, true, true)", "if(%s, false, false)", "if(%s, 1, 1)",
@@ -205,6 +162,54 @@ func runC03(r *Run) {
 		}
 		if i < 3 {
 			r.Sample(src)
+		}
+	}
+}
+
+// judgeReinvocations: one compiled expression per back end invoked on a sequence of environments: every invocation
+// must give what a fresh compilation gives on that environment (value, failure class, host-call trace), on every back
+// end — thunk bodies, constant pools and VM state are shared by the invocations of one Callable.
+func judgeReinvocations(r *Run, vars []envVar) {
+	alt := stdValues()
+	alt["x"], alt["y"], alt["b"], alt["f"], alt["s"] = val.Num(-4), val.Num(0.5), val.False, val.True, val.Str("zz")
+	seq := []map[string]*val.Val{stdValues(), alt, stdValues(), alt}
+	for _, src := range []string{`lazyif(b, x, y) + 1`, `lazyif(x > 0, s, e)`, `both(b, x > 0)`, `lazyif(b, tr(x), tr(y))`, `lazyif(f, 1, lazyif(b, x, y))`, `[lazyif(b, s, e), trs(s)]`,
+		`lazyif(b, lazyif(b, tr(x), tr(y)), tr(3)) + 100`, `if(b, x, y) + tr(x)`, `b && x > 0 || tr(y) > 0`, `x + y * 2`, `[x: s, y: e]`, `abs(y) + y`, `y - floor(y)`, `{p: x, q: s}.p + o.p`,
+		`ident(x) + inc(y)`, `pick([x], s)`, `get(mb, x) + len(xs)`} {
+		for bi, be := range backends {
+			tl := &traceLog{}
+			var cl yae.Callable
+			var cerr error
+			if pan, _ := protect(func() { cl, cerr = newExpr(be, tl, true).Compile(src, typeEnvOf(vars)) }); pan || cerr != nil {
+				continue
+			}
+			for k, vals := range seq {
+				var got outcome
+				tl.ev = nil
+				var v *val.Val
+				var err error
+				mark(fmt.Sprintf("invocation #%d of one Callable for %q on back end %s", k+1, src, be))
+				pan, msg := protect(func() { v, err = cl(valEnvOf(vals)) })
+				got.trace = tl.ev
+				switch {
+				case pan:
+					got.cls = classify(msg)
+				case err != nil:
+					got.cls = classify(err.Error())
+				default:
+					got.cls, got.v = "value", v
+				}
+				want := runOn(be, src, vars, vals, true)
+				r.Count("re-invocation cases")
+				if !obsEqual(got, want) {
+					r.Violate("reinvocation-differs-from-fresh-compilation", fmt.Sprintf("%q on %s, invocation #%d of one Callable", src, be, k+1), fmt.Sprintf("got %s, a fresh compilation gives %s", brief(got), brief(want)))
+				}
+				if bi == 0 || bi == 2 {
+					tag := map[string]string{"closure": "evalsrc", "vm-switch": "vmsrc"}[be]
+					hs := historyFor(true)
+					r.Case(L(A(tag), hs.Sx(), tenvSx(vars), venvSx(vars, vals), oraclesSx(src, vals), Runes(src)), got.Sx())
+				}
+			}
 		}
 	}
 }
